@@ -423,7 +423,27 @@ def main(verif, argv):
         print(__doc__)
         return 2
     if argv[0] == "build":
-        return 0 if ensure_built(verif) else 2
+        if not ensure_built(verif):
+            return 2
+        # everything else the quick checks need, so that their own rebuilds are no-ops
+        rc_all = 0
+        steps = []
+        for name, flags in (("core", []), ("alloc", ["--features", "tz-alloc"]), ("std", ["--features", "tz-std"])):
+            steps.append((["cargo", "build", "--offline", "--release"] + flags + ["--target-dir", os.path.join(verif, "target", f"feat-{name}")], os.path.join(verif, "featsim"), None))
+        steps.append((["cargo", "build", "--offline"], os.path.join(verif, "autotraits"), None))
+        steps.append((["cargo", "+nightly", "build", "--offline", "--target-dir", os.path.join(verif, "target", "nightly")], os.path.join(verif, "autotraits-nightly"), None))
+        steps.append((["cargo", "+nightly", "miri", "run", "--offline", "--target-dir", os.path.join(verif, "target", "miri"), "--", "0", "1", "1"], os.path.join(verif, "tzsim-miri"), {"MIRIFLAGS": "-Zmiri-seed=0"}))
+        for guard in ("off", "on"):
+            for fl in ([], ["--features", "alloc"], ["--features", "std"]):
+                steps.append((["cargo", "build", "--offline", "--no-default-features"] + fl + ["--target-dir", os.path.join(verif, "target", f"repo-{guard}")], "/repo", {"RUSTFLAGS": "--cfg tz_rs_verif"} if guard == "on" else None))
+        for argv2, cwd, ee in steps:
+            rc, out = sh(argv2, cwd=cwd, extra_env=ee, timeout=3600)
+            if rc != 0:
+                print("build step failed:", " ".join(argv2), "in", cwd)
+                sys.stdout.write(out[-1500:])
+                rc_all = 2
+        print("build: ok" if rc_all == 0 else "build: FAILED")
+        return rc_all
     if argv[0] == "replay":
         if len(argv) < 2:
             print("usage: ./check replay <file>")
